@@ -42,6 +42,8 @@ SKELETONS = [
     "CP(=O)(O)CC", "CC(O)c1ccccc1", "c1ccccc1C=CC", "OC(=O)C=CC(=O)O", "CC(F)(Cl)Br", "C1CCC2CCCCC2C1", "CC(O)C(O)C", "NC(C)C(N)C", "C=C(C)C(C)Cl", "SC(C)CC",
     "CC(C)=CC(C)Br", "O=C1CCC(C)C1", "CC1=CC(C)CC1", "c1cc[nH]c1", "Cn1c(=O)c2c(ncn2C)n(C)c1=O", "CC(Cl)=C(Cl)C", "C[N+](C)(CC)C(C)O", "CC(O)C#N", "FC(F)C(Cl)I", "C(F)(Cl)=C=C(F)Cl",
     "OC(C)C=CCl", "CC(N)=O", "CSC(C)N", "ClC=CC=CBr", "CC(Br)CC(Cl)C",
+    # strained small rings: a ring atom is a substituent of both ends of the double bond, exocyclic angles of ~150 degrees
+    "C1=CC1", "CC1=CC1", "CC1(C)C=C1", "CC1(CC)C=C1C", "O=C1C=C1", "C1=CCC1", "C=C1CC1", "CC1=C(C)C1", "C1C2C1C2", "CC1=NC1C", "C12C3C4C1C5C2C3C45", "C1=CC2CC2C1", "FC1=CC1Cl",
 ]
 SP_T = "F[Pt@SP{}](Cl)(Br)I"
 TB_T = "F[As@TB{}](Cl)(Br)(I)N"
